@@ -1,4 +1,5 @@
 import CobraModel.Model.Schedule
+import CobraModel.Lemmas.AuxProb
 /-!
 # C14 — results do not depend on process count, scheduling or item order
 
@@ -168,5 +169,25 @@ theorem chain_seeds_distinct (seed p : Nat) : ((List.range p).map (seed + ·)).N
 
 example : roundUp 10 4 = 12 := by decide
 example : roundUp 12 4 = 12 := by decide
+
+/-! ### the problem of an item does not depend on the schedule
+
+The problem a worker hands to the solver for an item is recorded *inside the worker processes* for every explored schedule (process counts, chunkings,
+item permutations, seeded delays) and compared entry by entry with the Lean builder of that item's problem — `AuxM.Net.fvaStep` for an FVA step,
+`AuxM.Net.reactionDeletion` / `geneDeletion` for a deletion — which is a function of the model content and the item alone (`harness/c14.py`,
+`problems_vs_builders`).  What the schedule could still influence is which optimum the solver lands on, not its value: -/
+open AuxM in
+/-- **the reported value of an item is determined by its problem**: two optima of the same problem — found by different workers, after different
+histories, in different runs — have the same objective value -/
+theorem item_value_is_schedule_free (p : Prob) (x x' : V → Rat) (h : p.IsOpt x) (h' : p.IsOpt x') : p.value x = p.value x' :=
+  isOpt_value_unique p x x' h h'
+
+open AuxM in
+/-- for FVA: whichever worker solves the step of reaction `i`, the flux it reports is the extreme of `v_i` over the region -/
+theorem fva_item_value_is_the_extreme (n : Net) (hp : n.Proper) (t : Rat) (cap : Option Rat) (i : Nat) (mx : Bool) (x x' : V → Rat)
+    (h : (n.fvaStep t cap i mx).IsOpt x) (h' : (n.fvaStep t cap i mx).IsOpt x') : netOf x i = netOf x' i := by
+  have := isOpt_value_unique _ x x' h h'
+  rw [(fva_optimum n hp t cap i mx x h).2.1, (fva_optimum n hp t cap i mx x' h').2.1] at this
+  exact this
 
 end C14
